@@ -1,17 +1,16 @@
 SPECIFICATION Spec
 CONSTANTS
-  M = 2
+  M = 1
   Fam = "pen"
-  PMax = 2
-  NPen = {0, 1, 2, 3}
+  PMax = 1
+  NPen = {10, 12}
   GVals <- G1
-  KS = {1, 2}
+  KS = {1, 2, 3}
+  KHN <- KHN1
 INVARIANT AndZeroIffAll
 INVARIANT OrZeroIffAny
 INVARIANT AndIsSum
 INVARIANT OrIsMin
 INVARIANT OrLeAnd
-INVARIANT Homogeneous
-INVARIANT LinearInK
 INVARIANT AndZeroAtIter
 INVARIANT Emit
